@@ -40,6 +40,11 @@ def cells(tier):
                     if (sa, sb) != ((3,), (3,)) and (sa, sb) != ((2, 3), (3,)) or "s" in kinds:
                         continue
                 yield ("B", b, sa, sb, kinds)
+    # exponents for which Tensor.__pow__ has shortcuts
+    for expo in (1.0, 2.0, 3.0, 0.5):
+        for sa in ((3,), ()):
+            for kinds in (("t", "t"), ("t", "a"), ("t", "s"), ("a", "t"), ("s", "t")):
+                yield ("BP", sa, kinds, expo)
     for u in UN:
         for shape in ((3,), (2, 3), ()):
             yield ("U", u, shape)
@@ -51,7 +56,7 @@ def cells(tier):
     for m in ("reshape", "transpose", "squeeze", "ravel", "swapaxes", "moveaxis", "expand_dims", "clip", "flatten_vs_ravel", "getitem", "where", "einsum", "T"):
         yield ("M", m)
     for c in CONST_ONLY:
-        for const in (False, True):
+        for const in (False, True, "first_only", "second_only", "out_only"):
             for form in ("np", "mg", "operator"):
                 yield ("K", c, const, form)
     for b in BOOL_ONLY:
@@ -110,9 +115,17 @@ def run_spellings(spellings):
 def check_B(cell):
     import mygrad as mg
 
-    _, b, sa, sb, kinds = cell
-    dom = catalogue.BIN_DOMAIN.get(b, ("any", "any"))
-    A, Bv = vals(sa, 1, dom[0]), vals(sb, 8, dom[1])
+    if cell[0] == "BP":
+        _, sa, kinds, expo = cell
+        b, sb = "power", ()
+        A, Bv = vals(sa, 1, "pos"), np.array(expo)
+        if kinds[0] != "t":  # the special value sits in whichever operand is the exponent
+            A, Bv = vals((), 1, "pos"), np.full(sa, expo)
+            sa, sb = (), sa
+    else:
+        _, b, sa, sb, kinds = cell
+        dom = catalogue.BIN_DOMAIN.get(b, ("any", "any"))
+        A, Bv = vals(sa, 1, dom[0]), vals(sb, 8, dom[1])
     if b in ("maximum", "minimum") and np.any(np.broadcast_to(A, np.broadcast_shapes(sa, sb)) == np.broadcast_to(Bv, np.broadcast_shapes(sa, sb))):
         return ("skip", "tie")
     oshape = np.broadcast_shapes(sa, sb) if b != "matmul" else np.matmul(A, Bv).shape
@@ -301,16 +314,25 @@ def check_K(cell):
     nin = npf.nin
     X = np.array([1.5, -2.25, 3.0])
     Y = np.array([2.0, 0.75, -1.5])
-    xt, yt = mg.tensor(X, constant=const), mg.tensor(Y, constant=const)
+    cx = const in (True, "first_only", "out_only")
+    cy = const in (True, "second_only", "out_only")
+    if nin == 1 and const in ("first_only", "second_only"):
+        return ("skip", "unary")
+    xt, yt = mg.tensor(X, constant=cx), mg.tensor(Y, constant=cy)
+    kw = {}
+    if const == "out_only":
+        if c == "divmod":
+            return ("skip", "two outputs")
+        kw["out"] = mg.tensor(np.zeros(3), constant=False)  # a non-constant tensor as out= target
     if form == "np":
-        f = (lambda: npf(xt)) if nin == 1 else (lambda: npf(xt, yt))
+        f = (lambda: npf(xt, **kw)) if nin == 1 else (lambda: npf(xt, yt, **kw))
     elif form == "mg":
         if not hasattr(mg, c):
             return ("skip", "no mygrad function of that name")
-        f = (lambda: getattr(mg, c)(xt)) if nin == 1 else (lambda: getattr(mg, c)(xt, yt))
+        f = (lambda: getattr(mg, c)(xt, **kw)) if nin == 1 else (lambda: getattr(mg, c)(xt, yt, **kw))
     else:
         opf = {"floor_divide": operator.floordiv, "remainder": operator.mod, "mod": operator.mod, "divmod": divmod}.get(c)
-        if opf is None or not hasattr(mg.Tensor, {"floor_divide": "__floordiv__", "remainder": "__mod__", "mod": "__mod__", "divmod": "__divmod__"}[c]):
+        if opf is None or kw or not hasattr(mg.Tensor, {"floor_divide": "__floordiv__", "remainder": "__mod__", "mod": "__mod__", "divmod": "__divmod__"}[c]):
             return ("skip", "no operator spelling defined on Tensor")
         f = lambda: opf(xt, yt)
     try:
@@ -319,8 +341,8 @@ def check_K(cell):
     except Exception as e:
         err = base.exc_brief(e)
         del e
-    if not const:
-        return None if err is not None else ("non_constant_accepted", "%s applied to a non-constant tensor returned %s instead of raising" % (c, type(r).__name__))
+    if const is not True:
+        return None if err is not None else ("non_constant_accepted", "%s with a non-constant tensor among its operands/out returned %s instead of raising" % (c, type(r).__name__))
     if err is not None:
         return ("exception", "%s on constant tensors raised %s: %s" % ((c,) + err))
     ref = npf(X) if nin == 1 else npf(X, Y)
@@ -390,7 +412,7 @@ def check_F(cell):
 
 
 def check(cell):
-    return {"B": check_B, "U": check_U, "R": check_R, "M": check_M, "K": check_K, "N": check_N, "F": check_F}[cell[0]](cell)
+    return {"B": check_B, "BP": check_B, "U": check_U, "R": check_R, "M": check_M, "K": check_K, "N": check_N, "F": check_F}[cell[0]](cell)
 
 
 def nontrivial(cell):
